@@ -22,6 +22,7 @@ deriving Repr, DecidableEq
 
 inductive Prog
   | done
+  | ret (r : Option Var)               -- `return r;` : the reference held in `r` goes to the caller (`none`: NULL / an int / a borrowed singleton)
   | seq (o : Op) (rest : Prog)
   | branch (p q : Prog)
 deriving Repr
@@ -71,6 +72,7 @@ def astep (σ : AState) : Op → Option AState
 
 def check : Prog → AState → Bool
   | .done, _ => true
+  | .ret _, _ => true
   | .seq o rest, σ => match astep σ o with | some σ' => check rest σ' | none => false
   | .branch p q, σ => check p σ && check q σ
 
